@@ -5,8 +5,11 @@
   prefix "v" / "V").  Sections compare numerically, missing sections are 0.
   Everything outside the domain is `none` ("unknown": the library has many more strategies).
 
-  Mirrors (after the `fix:` commit that uses "not <" instead of ">="):
-    validation.is_version      accept  iff  not ("1.4" > value)
+  Mirrors (after the `fix:` commits 2fb09b6, 1a86373, 51ee1bd):
+    validation.is_version      accept  iff  not (value < "1.4")  and every section converts
+                               (the value is the LEFT operand, exactly as in get_const, so the
+                               library normalises it the same way in both places: "1.4.." keeps
+                               one trailing dot, is recognised by no strategy, and is rejected)
     const.get_const            first const c (descending) with  not (value < c)
 -/
 import MySensors.Model.Rule
@@ -18,9 +21,10 @@ def asciiDigit (c : Char) : Option Nat :=
   if '0'.toNat ≤ c.toNat ∧ c.toNat ≤ '9'.toNat then some (c.toNat - '0'.toNat) else none
 
 /-- one section: a non-empty run of decimal digits (regex `\d`: any Unicode Nd digit, like `int()`).
-    A section of more than `intMaxDigits` digits makes `int()` raise ValueError *if the comparison
-    gets as far as that section* (awesomeversion compares lazily; `get_const` does not catch it):
-    such strings are outside the modelled domain. -/
+    A section of more than `intMaxDigits` digits makes `int()` raise ValueError; `is_version`
+    converts every section once inside its `try` (fix 1a86373), so such a string is rejected.
+    The model classifies it as outside the domain (`none`), which `evalFn` and the callers of
+    `safeVersion` treat as rejected. -/
 def parseSection (s : Str) : Option Nat :=
   if s.isEmpty || PyTables.intMaxDigits < s.length then none else (s.mapM digitVal).map ofDigits
 
